@@ -365,9 +365,20 @@ class Dump:
     def uids(s): return [c[0] for c in s.cols]
     def short(s): return {'cols': [(c[0], c[1]) for c in s.cols], 'locs': {t: l for t, l in enumerate(s.locs) if l}, 'nuid': s.nuid}
 
+def source_lguard():
+    """tiny translator: does Db::setLocatorByUID of the CURRENT source return at once for the uid of a deleted column?
+       (the model follows the source on this point: field d_lguard of coq/C19/Model.v)"""
+    try: src = open(os.path.join(REPO, 'src', 'Db', 'Db.cpp')).read()
+    except OSError: return 0
+    m = re.search(r'void Db::setLocatorByUID\(int iuid,.*?\n\}\n', src, re.S)
+    body = m.group(0) if m else ''
+    return 1 if re.search(r'if\s*\(\s*_uidcol\[iuid\]\s*<\s*0\s*\)\s*return', body) else 0
+LGUARD = None
 def model_db(d):
     """Db of the model from a dump: the content of column uid is 'Orig uid'"""
-    return [d.grid, d.ndim if d.grid else 0, d.nuid, [[c[0], S(c[1]), [0, c[0]]] for c in d.cols], d.locs]
+    global LGUARD
+    if LGUARD is None: LGUARD = source_lguard()
+    return [d.grid, d.ndim if d.grid else 0, d.nuid, [[c[0], S(c[1]), [0, c[0]]] for c in d.cols], d.locs, LGUARD]
 
 def content_class(vals):
     if all(v == () for v in vals): return 'na'
@@ -460,7 +471,7 @@ def cfg_sx(sc):
             int(c['neigh_only']), c['nbneigh'], c['matlc'], c['mnvar'], c['mndim'], c['nndim'], c['nfex'], int(c['extra_ok']), c['iuids'],
             int(c['locate']), c['loctype'], c['nbsimu'], c['mode'], c['n'], int(c['has_in']), int(c['fixed'])]
 
-EMPTY_DB = [0, 0, 0, [], [[] for _ in range(NLOC)]]
+EMPTY_DB = [0, 0, 0, [], [[] for _ in range(NLOC)], 0]
 def model_case(sc, bin_, bout, fs):
     din = model_db(bin_) if sc.cfg['has_in'] else EMPTY_DB
     return [sc.id, cfg_sx(sc), sc.alias, fs, 1000, din, model_db(bout), getattr(sc, 'model_aux', [])]
@@ -635,6 +646,7 @@ def run(ctx):
     ctx.cov['model_predicts_non_atomic_failures'] = n_model_nonatomic
     ctx.cov['cases_under_proved_condition_wf_atomic'] = n_wf
     ctx.cov['cases_under_proved_condition_wf_success'] = n_wfs
+    ctx.cov['source_setLocatorByUID_ignores_deleted_uid'] = LGUARD
     ctx.cov['rule'] = ('case = calculator entry point x option variant x prior contents of both Dbs (uid holes, unused uid tail, existing variables with the '
                        'locator the calculator sets, names clashing with the naming convention or with the provisional names "", ".1") x failure point '
                        '(none, injected after check/preprocess/run/postprocess, natural failures); distinct = distinct (calculator, variant, prior tags, '
